@@ -88,11 +88,15 @@ class RecordingGenerator:
         res = loc + scale * z
         return self._rec("normal", (_summ(loc), _summ(scale), size), res)
 
-    def standard_normal(self, size=None, *a, **k):
-        return self.normal(0.0, 1.0, size)
+    def standard_normal(self, size=None, dtype=np.float64, out=None):
+        if out is not None:
+            out[...] = self.normal(0.0, 1.0, out.shape)
+            return out
+        res = self.normal(0.0, 1.0, size)
+        return res if dtype in (np.float64, float, "d", "float64") else np.asarray(res, dtype=dtype)
 
-    def random(self, size=None, *a, **k):
-        u = self._g.random(size=size)
+    def random(self, size=None, dtype=np.float64, out=None):
+        u = self._g.random(size=size, dtype=dtype, out=out)
         c = _ctx.get()
         if c is not None and c.faults["edge_u_p"] > 0 and size is None:
             h = _frac_hash(u + 0.37)
